@@ -5,6 +5,65 @@ from . import core
 from .core import define_rec, ctx, OutOfSubset, PathEnd
 
 
+class ModelAttributeError(AttributeError):
+    """a *model* class has no such attribute: python semantics for hasattr/getattr-default, but when it escapes the
+    function under verification it means the sidecar does not know a member the code uses (out of subset), not
+    that the real code raises AttributeError"""
+    _pyvc_model_attr = True
+
+
+def _auto_member(T, clsname, name):
+    """A member the model class does not define: if the model class names its real source
+    (ClassModel.source = (file, real class name, globals)), the member is loaded from the real class statement by
+    the same extraction pipeline and executed (DESIGN 3.2 `inline`) - so a helper method added to the real class
+    is verified as part of its callers instead of stopping the run."""
+    for a in T.ancestors(clsname):
+        cm = T.classes.get(a)
+        src = getattr(cm, 'source', None) if cm is not None else None
+        if not src:
+            continue
+        file, real, glob = src
+        from . import inline as _inl, rewrite as _rw
+        import ast as _ast
+        try:
+            node, _ = _rw.find_def(_ast.parse(_rw.read_source(file)), '%s.%s' % (real, name))
+        except Exception:       # pylint: disable=broad-except
+            node = None
+        if not isinstance(node, _ast.FunctionDef):
+            continue
+        decos = [_ast.unparse(d) for d in node.decorator_list]
+        fn = _depth_guarded(_inl.inline(file, '%s.%s' % (real, name), glob), '%s.%s' % (real, name))
+        kind = 'method'
+        for d in decos:
+            if d in ('property', 'cached_property', 'functools.cached_property'):
+                kind = 'property'
+            elif d in ('staticmethod', 'classmethod'):
+                kind = d
+        return kind, fn
+    return None
+
+
+_AUTO_DEPTH = {}
+AUTO_DEPTH_LIMIT = 3
+
+
+def _depth_guarded(fn, label):
+    """auto-inlined members have no contract, so their recursion cannot be cut by an induction hypothesis: beyond
+    a small depth the path is abandoned and the run is marked *pruned* - a pruned run can refute (with a replayed
+    input) but never prove"""
+    def wrapper(*a, **kw):
+        d = _AUTO_DEPTH.get(label, 0)
+        if d >= AUTO_DEPTH_LIMIT:
+            ctx().pruned = True
+            raise PathEnd()
+        _AUTO_DEPTH[label] = d + 1
+        try:
+            return fn(*a, **kw)
+        finally:
+            _AUTO_DEPTH[label] = d
+    return wrapper
+
+
 class ClassModel:
     """Model of one real class: constructor fields (None => abstract, no instances), bases
     (names, for isinstance), python-level methods/properties used when the code under
@@ -21,6 +80,22 @@ class ClassModel:
 
     def __repr__(self):
         return '<model class %s>' % self.name
+
+    def __getattr__(self, name):
+        # class-level access to a member the model does not define (e.g. LoopRange._helper(x)): real source
+        if name.startswith('__') or name in ('source', 'instancecheck', 'pyclass', 'theory'):
+            raise AttributeError(name)
+        th = self.__dict__.get('theory')
+        if th is not None:
+            auto = _auto_member(th, self.name, name)
+            if auto is not None:
+                kind, fn = auto
+                if kind == 'staticmethod':
+                    return fn
+                if kind == 'classmethod':
+                    return lambda *a, **kw: fn(self, *a, **kw)
+                return fn
+        raise ModelAttributeError("model class %s has no attribute '%s'" % (self.name, name))
 
     def __call__(self, *args, **kwargs):
         ctor = self.methods.get('__new__')
@@ -1127,7 +1202,17 @@ class SV(Sym):
         m = T.find_method(k, name)
         if m is not None:
             return lambda *a, **kw: m(self, *a, **kw)
-        raise AttributeError("'%s' object has no attribute '%s'" % (k, name))
+        auto = _auto_member(T, k, name)
+        if auto is not None:
+            kind, fn = auto
+            if kind == 'property':
+                return fn(self)
+            if kind == 'staticmethod':
+                return fn
+            if kind == 'classmethod':
+                return lambda *a, **kw: fn(T.classes[k], *a, **kw)
+            return lambda *a, **kw: fn(self, *a, **kw)
+        raise ModelAttributeError("'%s' object has no attribute '%s'" % (k, name))
 
     def _dunder(self, name, *args):
         """call special method `name`; NotImplemented if the value's type does not define it"""
